@@ -26,6 +26,9 @@ package clock
 //@ func (*SuspendableClock).NewTimer$1
 //@   props C14 C11
 //@   lockeffect c.lock -1
+//@   loop 0 invariant sent(resultChannel) == 0
+//@   ensures the-timer-publishes-one-time-at-most: sent(resultChannel) <= 1
+//@   ensures a-timer-that-fired-is-marked-as-no-longer-stoppable-first: sent(resultChannel) == 1 ==> t.stopChannel == nil
 
 // ---------------------------------------------------------------------------
 // Unsuspended time accounting (C11)
